@@ -33,6 +33,7 @@ type Concrete struct {
 	Phases    [][]byte
 	Setup     func(be *rec.Backend)
 	EOF       bool
+	Abort     bool // with EOF: tear the transport down instead of an orderly close
 	Idle      bool // send nothing: wait for the server's read timeout
 	ThenEOF   bool // close the write side after the phases
 	Handshake bool
@@ -264,6 +265,7 @@ func Concretize(e *Edge, n int) Concrete {
 		}
 	case "EOF":
 		k.EOF = true
+		k.Abort = c.A == "abort"
 	case "IDLE":
 		k.Idle = true
 	case "LONG":
@@ -451,7 +453,11 @@ func (cv *Conv) Exec(e *Edge) (divs []evid.Div, fatal error) {
 		return nil, nil
 	}
 	if k.EOF {
-		cv.C.CloseWrite()
+		if k.Abort {
+			cv.C.Abort()
+		} else {
+			cv.C.CloseWrite()
+		}
 		if !cv.C.WaitIdle() {
 			return nil, fmt.Errorf("server not idle after EOF")
 		}
